@@ -1,6 +1,886 @@
-//! `vh sfnt`: see /verif/docs/MODULE_CONTRACT.md
+//! `vh sfnt`: measure the sfnt container and every cross-table reference of a font (C05).
+//!
+//! stdin: one JSON request per line  {"id": "...", "font": "<path>", "meta": {...}}
+//! stdout: one JSON observation per line (vocabulary: spec/Sfnt.tla).
+//!
+//! Measurement only: the table directory is decoded by hand from the bytes (word sums, padding bytes, offsets),
+//! every table is walked field by field with read-fonts' generic traversal (any field or offset that fails to
+//! parse is recorded with its path), and every glyph id / lookup index / feature index / name id / region index /
+//! delta-set index met on the way is copied out together with the place it was found.  Whether those numbers are
+//! in range, sorted, aligned, ... is decided by spec/Sfnt.tla.
+
+use std::{
+    collections::{BTreeMap, BTreeSet},
+    io::{BufRead, Write},
+};
+
+use serde_json::{Map, Value, json};
+use skrifa::raw::{
+    FontRef, ReadError, TableProvider,
+    tables::{
+        cmap::{CmapSubtable, MapVariant},
+        variations::{DeltaSetIndexMap, ItemVariationStore},
+    },
+    traversal::{FieldType, SomeArray, SomeTable},
+    types::{GlyphId, Tag},
+};
+
+// ----------------------------------------------------------------------------- small helpers
+
+fn be16(d: &[u8], off: usize) -> u32 {
+    d.get(off..off + 2)
+        .map(|b| u16::from_be_bytes([b[0], b[1]]) as u32)
+        .unwrap_or(0)
+}
+
+fn be32(d: &[u8], off: usize) -> u32 {
+    d.get(off..off + 4)
+        .map(|b| u32::from_be_bytes([b[0], b[1], b[2], b[3]]))
+        .unwrap_or(0)
+}
+
+fn halves(v: u32) -> Value {
+    json!([v >> 16, v & 0xFFFF])
+}
+
+/// TLC integers are signed 32-bit
+fn clamp(v: u64) -> u64 {
+    v.min(0x7FFF_FFFF)
+}
+
+/// Sum (mod 2^32) of the big-endian 32-bit words of `d[from..to]`; bytes past the end of `d` count as zero.
+fn word_sum(d: &[u8], from: usize, to: usize) -> u32 {
+    let mut sum: u32 = 0;
+    let mut i = from;
+    while i < to {
+        let mut w = [0u8; 4];
+        for k in 0..4 {
+            if i + k < to
+                && let Some(b) = d.get(i + k)
+            {
+                w[k] = *b;
+            }
+        }
+        sum = sum.wrapping_add(u32::from_be_bytes(w));
+        i += 4;
+    }
+    sum
+}
+
+// ----------------------------------------------------------------------------- directory
+
+fn directory(d: &[u8]) -> Value {
+    let num = be16(d, 4) as usize;
+    let mut recs = Vec::new();
+    let mut head_adj = 0u32;
+    for i in 0..num {
+        let r = 12 + 16 * i;
+        if r + 16 > d.len() {
+            break;
+        }
+        let tag = String::from_utf8_lossy(&d[r..r + 4]).to_string();
+        let ck = be32(d, r + 4);
+        let off = be32(d, r + 8) as u64;
+        let len = be32(d, r + 12) as u64;
+        let end = off + len;
+        let padded = (end + 3) & !3;
+        let (o, e, p) = (off as usize, end as usize, padded as usize);
+        let in_file = end <= d.len() as u64;
+        // the words of the table as they are in the file (the last word includes the padding bytes present)
+        let sum = if in_file { word_sum(d, o, p.min(d.len()).max(e)) } else { 0 };
+        let pad_nonzero = if in_file {
+            (e..p.min(d.len())).filter(|i| d[*i] != 0).count()
+        } else {
+            0
+        };
+        if tag == "head" && in_file && len >= 12 {
+            head_adj = be32(d, o + 8);
+        }
+        recs.push(json!({"tag": tag, "tagn": halves(be32(d, r)), "ck": halves(ck), "off": clamp(off), "len": clamp(len), "sum": halves(sum),
+                         "padnz": pad_nonzero, "infile": in_file}));
+    }
+    json!({"version": halves(be32(d, 0)), "num": num, "search": be16(d, 6), "selector": be16(d, 8),
+           "shift": be16(d, 10), "flen": clamp(d.len() as u64), "recs": recs,
+           "filesum": halves(word_sum(d, 0, d.len())), "headadj": halves(head_adj)})
+}
+
+// ----------------------------------------------------------------------------- cmap
+
+/// (code point, glyph id) of every Unicode cmap subtable (formats 4, 12 and the non-default UVS of 14).
+pub fn cmap_pairs(font: &FontRef) -> Vec<(u32, u32)> {
+    let mut out = Vec::new();
+    let Ok(cmap) = font.cmap() else { return out };
+    for (i, _rec) in cmap.encoding_records().iter().enumerate() {
+        let Ok(st) = cmap.subtable(i as u16) else { continue };
+        match st {
+            CmapSubtable::Format4(t) => out.extend(t.iter().map(|(c, g)| (c, g.to_u32()))),
+            CmapSubtable::Format12(t) => out.extend(t.iter().map(|(c, g)| (c, g.to_u32()))),
+            CmapSubtable::Format6(t) => out.extend(t.iter().map(|(c, g)| (c, g.to_u32()))),
+            CmapSubtable::Format10(t) => out.extend(t.iter().map(|(c, g)| (c, g.to_u32()))),
+            CmapSubtable::Format13(t) => out.extend(t.iter().map(|(c, g)| (c, g.to_u32()))),
+            _ => {}
+        }
+    }
+    out
+}
+
+fn cmap_uvs_gids(font: &FontRef) -> Vec<u32> {
+    let mut out = Vec::new();
+    if let Ok(cmap) = font.cmap() {
+        for (i, _rec) in cmap.encoding_records().iter().enumerate() {
+            if let Ok(CmapSubtable::Format14(t)) = cmap.subtable(i as u16) {
+                for (_c, _s, v) in t.iter() {
+                    if let MapVariant::Variant(g) = v {
+                        out.push(g.to_u32());
+                    }
+                }
+            }
+        }
+    }
+    out
+}
+
+// ----------------------------------------------------------------------------- generic walk
+
+#[derive(Default)]
+struct Node {
+    type_name: String,
+    scalars: Vec<(&'static str, i64)>,
+    arrays: Vec<(&'static str, Vec<i64>)>,
+    lens: Vec<(&'static str, usize)>,
+    gids: Vec<(&'static str, u32)>,
+}
+
+impl Node {
+    fn scalar(&self, n: &str) -> Option<i64> {
+        self.scalars.iter().find(|(k, _)| *k == n).map(|(_, v)| *v)
+    }
+    fn array(&self, n: &str) -> Option<&Vec<i64>> {
+        self.arrays.iter().find(|(k, _)| *k == n).map(|(_, v)| v)
+    }
+    fn len_of(&self, n: &str) -> Option<usize> {
+        self.lens.iter().find(|(k, _)| *k == n).map(|(_, v)| *v)
+    }
+}
+
+#[derive(Default)]
+struct Walk {
+    top: String,
+    fields: u64,
+    errors: Vec<Value>,
+    gid_uses: BTreeMap<String, BTreeSet<u32>>,
+    name_uses: BTreeMap<String, BTreeSet<u32>>,
+    lookup_uses: BTreeMap<String, BTreeSet<u32>>, // key "GSUB:where"
+    feature_uses: BTreeMap<String, BTreeSet<u32>>,
+    counts: BTreeMap<String, i64>, // "GSUB.lookup_count", ...
+    varidx: BTreeMap<String, BTreeSet<(u32, u32)>>,
+    contexts: BTreeSet<(String, String, usize, usize)>, // (table, rule kind, input len, lookahead len)
+    stat_axis_uses: BTreeSet<u32>,
+    colr: Vec<Value>,
+}
+
+const MAX_FIELDS: u64 = 20_000_000;
+
+fn scalar_of(v: &FieldType) -> Option<i64> {
+    Some(match v {
+        FieldType::I8(x) => *x as i64,
+        FieldType::U8(x) => *x as i64,
+        FieldType::I16(x) => *x as i64,
+        FieldType::U16(x) => *x as i64,
+        FieldType::I32(x) => *x as i64,
+        FieldType::U32(x) => *x as i64,
+        FieldType::U24(x) => x.to_u32() as i64,
+        FieldType::FWord(x) => x.to_i16() as i64,
+        FieldType::UfWord(x) => x.to_u16() as i64,
+        FieldType::F2Dot14(x) => x.to_bits() as i64,
+        FieldType::NameId(x) => x.to_u16() as i64,
+        _ => return None,
+    })
+}
+
+impl Walk {
+    fn err(&mut self, path: &str, e: &ReadError) {
+        // read-fonts 0.40 hands the records nested in PairPosFormat2.class1_records an empty data slice, so its
+        // generic traversal cannot resolve their device offsets; `pairpos2_devices` reads those with the typed API
+        if path.contains("Class1Record.class2_records") {
+            return;
+        }
+        if self.errors.len() < 20 {
+            self.errors.push(json!({"table": self.top, "path": path, "error": e.to_string()}));
+        }
+    }
+
+    fn table<'a>(&mut self, t: &(dyn SomeTable<'a> + 'a), path: &str, depth: usize) {
+        if depth > 48 || self.fields > MAX_FIELDS {
+            if self.errors.len() < 20 {
+                self.errors.push(json!({"table": self.top, "path": path, "error": "traversal limit reached"}));
+            }
+            return;
+        }
+        let mut node = Node { type_name: t.type_name().to_string(), ..Default::default() };
+        let tn = node.type_name.clone();
+        for f in t.iter() {
+            self.fields += 1;
+            let p = format!("{path}/{}.{}", tn, f.name);
+            self.field(&mut node, f.name, f.value, &p, depth);
+        }
+        self.on_node(&node);
+    }
+
+    fn field<'a>(&mut self, node: &mut Node, name: &'static str, v: FieldType<'a>, p: &str, depth: usize) {
+        if let Some(s) = scalar_of(&v) {
+            node.scalars.push((name, s));
+            if let FieldType::NameId(n) = v {
+                self.name_uses
+                    .entry(format!("{}:{}.{}", self.top, node.type_name, name))
+                    .or_default()
+                    .insert(n.to_u16() as u32);
+            }
+            return;
+        }
+        match v {
+            FieldType::GlyphId16(g) => node.gids.push((name, g.to_u32())),
+            FieldType::GlyphId24(g) => node.gids.push((name, g.to_u32())),
+            FieldType::ResolvedOffset(r) => match r.target {
+                Ok(t) => self.table(&t, p, depth + 1),
+                Err(e) => self.err(p, &e),
+            },
+            FieldType::StringOffset(s) => {
+                if let Err(e) = s.target {
+                    self.err(p, &e)
+                }
+            }
+            FieldType::ArrayOffset(a) => match a.target {
+                Ok(arr) => self.array(node, name, &arr, p, depth),
+                Err(e) => self.err(p, &e),
+            },
+            FieldType::Record(r) => self.table(&r, p, depth + 1),
+            FieldType::Array(arr) => self.array(node, name, &arr, p, depth),
+            _ => {}
+        }
+    }
+
+    fn array<'a>(&mut self, node: &mut Node, name: &'static str, arr: &(dyn SomeArray<'a> + 'a), p: &str, depth: usize) {
+        let n = arr.len();
+        node.lens.push((name, n));
+        let mut scal: Vec<i64> = Vec::new();
+        for i in 0..n {
+            self.fields += 1;
+            if self.fields > MAX_FIELDS {
+                break;
+            }
+            let Some(item) = arr.get(i) else {
+                if self.errors.len() < 20 {
+                    self.errors.push(json!({"table": self.top, "path": format!("{p}[{i}]"), "error": "array item unreadable"}));
+                }
+                continue;
+            };
+            if let FieldType::U8(_) = item {
+                // byte blobs (instructions, string data, packed deltas): nothing to collect
+                break;
+            }
+            if let Some(s) = scalar_of(&item) {
+                scal.push(s);
+                if let FieldType::NameId(nid) = item {
+                    self.name_uses
+                        .entry(format!("{}:{}.{}", self.top, node.type_name, name))
+                        .or_default()
+                        .insert(nid.to_u16() as u32);
+                }
+                continue;
+            }
+            match item {
+                FieldType::GlyphId16(g) => node.gids.push((name, g.to_u32())),
+                FieldType::GlyphId24(g) => node.gids.push((name, g.to_u32())),
+                FieldType::ResolvedOffset(r) => match r.target {
+                    Ok(t) => self.table(&t, &format!("{p}[{i}]"), depth + 1),
+                    Err(e) => self.err(&format!("{p}[{i}]"), &e),
+                },
+                FieldType::Record(r) => self.table(&r, &format!("{p}[{i}]"), depth + 1),
+                FieldType::Array(a) => {
+                    let mut inner = Node { type_name: node.type_name.clone(), ..Default::default() };
+                    self.array(&mut inner, name, &a, &format!("{p}[{i}]"), depth + 1);
+                    node.gids.extend(inner.gids);
+                }
+                _ => {}
+            }
+        }
+        if !scal.is_empty() {
+            node.arrays.push((name, scal));
+        }
+    }
+
+    /// Copy the reference-bearing numbers of one table/record out, keyed by where they were found.
+    fn on_node(&mut self, n: &Node) {
+        let top = self.top.clone();
+        let tn = n.type_name.as_str();
+        // glyph ids
+        for (f, g) in &n.gids {
+            self.gid_uses.entry(format!("{top}:{tn}.{f}")).or_default().insert(*g);
+        }
+        match tn {
+            "ClassDefFormat1" => {
+                // glyphs start .. start+count-1 carry the listed classes
+                if let (Some((_, start)), Some(cnt)) = (n.gids.iter().find(|(f, _)| *f == "start_glyph_id"), n.len_of("class_value_array"))
+                    && cnt > 0
+                {
+                    self.gid_uses
+                        .entry(format!("{top}:{tn}.last_glyph"))
+                        .or_default()
+                        .insert(*start + cnt as u32 - 1);
+                }
+            }
+            "CoverageFormat2" | "ClassDefFormat2" => {}
+            _ => {}
+        }
+        let is_layout = top == "GSUB" || top == "GPOS";
+        if is_layout {
+            match tn {
+                "LookupList" => {
+                    if let Some(c) = n.scalar("lookup_count") {
+                        self.counts.insert(format!("{top}.lookup_count"), c);
+                    }
+                }
+                "FeatureList" => {
+                    if let Some(c) = n.scalar("feature_count") {
+                        self.counts.insert(format!("{top}.feature_count"), c);
+                    }
+                }
+                "Feature" => {
+                    if let Some(a) = n.array("lookup_list_indices") {
+                        let e = self.lookup_uses.entry(format!("{top}:Feature")).or_default();
+                        e.extend(a.iter().map(|v| *v as u32));
+                    }
+                }
+                "SequenceLookupRecord" => {
+                    if let Some(v) = n.scalar("lookup_list_index") {
+                        self.lookup_uses.entry(format!("{top}:SequenceLookupRecord")).or_default().insert(v as u32);
+                    }
+                }
+                "LangSys" => {
+                    let e = self.feature_uses.entry(format!("{top}:LangSys")).or_default();
+                    if let Some(a) = n.array("feature_indices") {
+                        e.extend(a.iter().map(|v| *v as u32));
+                    }
+                    if let Some(r) = n.scalar("required_feature_index")
+                        && r != 0xFFFF
+                    {
+                        e.insert(r as u32);
+                    }
+                }
+                "FeatureTableSubstitutionRecord" => {
+                    if let Some(v) = n.scalar("feature_index") {
+                        self.feature_uses.entry(format!("{top}:FeatureTableSubstitution")).or_default().insert(v as u32);
+                    }
+                }
+                _ => {}
+            }
+            // rule shapes for usMaxContext: (kind, input length incl. the first glyph, lookahead length)
+            let ctx = match tn {
+                "SingleSubstFormat1" | "SingleSubstFormat2" | "MultipleSubstFormat1" | "AlternateSubstFormat1" => {
+                    Some(("single".to_string(), 1, 0))
+                }
+                "SinglePosFormat1" | "SinglePosFormat2" => Some(("single".to_string(), 1, 0)),
+                "PairPosFormat1" | "PairPosFormat2" => Some(("pair".to_string(), 2, 0)),
+                "Ligature" => Some(("ligature".to_string(), n.len_of("component_glyph_ids").unwrap_or(0) + 1, 0)),
+                "SequenceRule" | "ClassSequenceRule" => {
+                    Some(("context".to_string(), n.len_of("input_sequence").unwrap_or(0) + 1, 0))
+                }
+                "SequenceContextFormat3" => Some(("context".to_string(), n.len_of("coverage_offsets").unwrap_or(0), 0)),
+                "ChainedSequenceRule" | "ChainedClassSequenceRule" => Some((
+                    "chain".to_string(),
+                    n.len_of("input_sequence").unwrap_or(0) + 1,
+                    n.len_of("lookahead_sequence").unwrap_or(0),
+                )),
+                "ChainedSequenceContextFormat3" => Some((
+                    "chain".to_string(),
+                    n.len_of("input_coverage_offsets").unwrap_or(0),
+                    n.len_of("lookahead_coverage_offsets").unwrap_or(0),
+                )),
+                "ReverseChainSingleSubstFormat1" => {
+                    Some(("reverse".to_string(), 1, n.len_of("lookahead_coverage_offsets").unwrap_or(0)))
+                }
+                "CursivePosFormat1" | "MarkBasePosFormat1" | "MarkLigPosFormat1" | "MarkMarkPosFormat1" => {
+                    Some(("attach".to_string(), 1, 0))
+                }
+                _ => None,
+            };
+            if let Some((k, i, l)) = ctx {
+                self.contexts.insert((top.clone(), k, i, l));
+            }
+        }
+        match tn {
+            "VariationIndex" => {
+                if let (Some(o), Some(i)) = (n.scalar("delta_set_outer_index"), n.scalar("delta_set_inner_index")) {
+                    self.varidx.entry(top.clone()).or_default().insert((o as u32, i as u32));
+                }
+            }
+            "ValueRecord" if top == "MVAR" => {
+                if let (Some(o), Some(i)) = (n.scalar("delta_set_outer_index"), n.scalar("delta_set_inner_index")) {
+                    self.varidx.entry(top.clone()).or_default().insert((o as u32, i as u32));
+                }
+            }
+            "AxisValueFormat1" | "AxisValueFormat2" | "AxisValueFormat3" | "AxisValueRecord" if top == "STAT" => {
+                if let Some(a) = n.scalar("axis_index") {
+                    self.stat_axis_uses.insert(a as u32);
+                }
+            }
+            "Colr" => {
+                self.colr.push(json!({"num_base": n.scalar("num_base_glyph_records"), "num_layers": n.scalar("num_layer_records")}));
+            }
+            _ => {}
+        }
+    }
+}
+
+/// Device / VariationIndex tables of PairPosFormat2 class records (typed API; see `Walk::err`).
+fn pairpos2_devices(font: &FontRef, w: &mut Walk) {
+    use skrifa::raw::tables::{
+        gpos::{PairPos, PositionSubtables},
+        layout::DeviceOrVariationIndex,
+    };
+    let Ok(gpos) = font.gpos() else { return };
+    let Ok(ll) = gpos.lookup_list() else { return };
+    w.top = "GPOS".into();
+    for (li, l) in ll.lookups().iter().enumerate() {
+        let Ok(l) = l else { continue };
+        let Ok(PositionSubtables::Pair(sts)) = l.subtables() else { continue };
+        for (si, st) in sts.iter().enumerate() {
+            let Ok(PairPos::Format2(t)) = st else { continue };
+            let data = t.offset_data();
+            for (i, c1) in t.class1_records().iter().enumerate() {
+                let Ok(c1) = c1 else {
+                    w.errors.push(json!({"table": "GPOS", "path": format!("lookup[{li}]/subtable[{si}]/class1_records[{i}]"), "error": "unreadable"}));
+                    continue;
+                };
+                for (j, c2) in c1.class2_records().iter().enumerate() {
+                    let Ok(c2) = c2 else {
+                        w.errors.push(json!({"table": "GPOS", "path": format!("lookup[{li}]/subtable[{si}]/class1_records[{i}]/class2_records[{j}]"), "error": "unreadable"}));
+                        continue;
+                    };
+                    for vr in [c2.value_record1(), c2.value_record2()] {
+                        for dev in [vr.x_placement_device(data), vr.y_placement_device(data), vr.x_advance_device(data), vr.y_advance_device(data)] {
+                            w.fields += 1;
+                            match dev {
+                                None => {}
+                                Some(Ok(DeviceOrVariationIndex::VariationIndex(v))) => {
+                                    w.varidx.entry("GPOS".into()).or_default().insert((v.delta_set_outer_index() as u32, v.delta_set_inner_index() as u32));
+                                }
+                                Some(Ok(_)) => {}
+                                Some(Err(e)) => {
+                                    if w.errors.len() < 20 {
+                                        w.errors.push(json!({"table": "GPOS", "path": format!("lookup[{li}]/subtable[{si}]/class1_records[{i}]/class2_records[{j}]/device"), "error": e.to_string()}));
+                                    }
+                                }
+                            }
+                        }
+                    }
+                }
+            }
+        }
+    }
+}
+
+fn sets_to_json(m: &BTreeMap<String, BTreeSet<u32>>) -> Value {
+    Value::Array(
+        m.iter()
+            .map(|(k, s)| json!({"where": k, "ids": s.iter().collect::<Vec<_>>()}))
+            .collect(),
+    )
+}
+
+// ----------------------------------------------------------------------------- item variation stores
+
+fn ivs_json(name: &str, ivs: Result<ItemVariationStore, ReadError>, maps: Vec<(&str, Option<Result<DeltaSetIndexMap, ReadError>>)>, ng: u32) -> Value {
+    let mut o = Map::new();
+    o.insert("table".into(), json!(name));
+    o.insert("error".into(), json!(""));
+    o.insert("axis_count".into(), json!(-1));
+    o.insert("region_count".into(), json!(0));
+    o.insert("data".into(), json!([]));
+    match ivs {
+        Err(e) => {
+            o.insert("error".into(), json!(e.to_string()));
+        }
+        Ok(ivs) => {
+            match ivs.variation_region_list() {
+                Ok(rl) => {
+                    o.insert("axis_count".into(), json!(rl.axis_count()));
+                    o.insert("region_count".into(), json!(rl.region_count()));
+                }
+                Err(e) => {
+                    o.insert("error".into(), json!(e.to_string()));
+                }
+            }
+            let mut data = Vec::new();
+            for d in ivs.item_variation_data().iter() {
+                match d {
+                    None => data.push(json!({"item_count": 0, "regions": [], "null": true})),
+                    Some(Err(e)) => {
+                        o.insert("error".into(), json!(e.to_string()));
+                        data.push(json!({"item_count": 0, "regions": [], "null": true}));
+                    }
+                    Some(Ok(d)) => {
+                        let regs: Vec<u16> = d.region_indexes().iter().map(|r| r.get()).collect();
+                        data.push(json!({"item_count": d.item_count(), "regions": regs, "null": false}));
+                    }
+                }
+            }
+            o.insert("data".into(), json!(data));
+        }
+    }
+    let mut ms = Vec::new();
+    for (mname, m) in maps {
+        match m {
+            None => ms.push(json!({"name": mname, "present": false, "count": 0, "entries": []})),
+            Some(Err(e)) => {
+                o.insert("error".into(), json!(format!("{mname} map: {e}")));
+                ms.push(json!({"name": mname, "present": true, "count": 0, "entries": []}));
+            }
+            Some(Ok(m)) => {
+                let count = match &m {
+                    DeltaSetIndexMap::Format0(f) => f.map_count() as u32,
+                    DeltaSetIndexMap::Format1(f) => f.map_count(),
+                };
+                // distinct (outer, inner) pairs used by the glyphs of this font
+                let mut set = BTreeSet::new();
+                for i in 0..count.min(ng.max(1)).min(70000) {
+                    if let Ok(ix) = m.get(i) {
+                        set.insert((ix.outer as u32, ix.inner as u32));
+                    }
+                }
+                ms.push(json!({"name": mname, "present": true, "count": count,
+                               "entries": set.iter().map(|(a, b)| json!([a, b])).collect::<Vec<_>>()}));
+            }
+        }
+    }
+    o.insert("maps".into(), json!(ms));
+    Value::Object(o)
+}
+
+// ----------------------------------------------------------------------------- layout contexts (shared with C17)
+
+/// The distinct rule shapes of GSUB and GPOS: [table, kind, input length, lookahead length].
+pub fn layout_contexts(font: &FontRef) -> Value {
+    let mut w = Walk::default();
+    walk_layout(font, &mut w);
+    json!({"gsub": font.table_data(Tag::new(b"GSUB")).is_some(), "gpos": font.table_data(Tag::new(b"GPOS")).is_some(),
+           "rules": w.contexts.iter().map(|(t, k, i, l)| json!({"t": t, "k": k, "in": i, "la": l})).collect::<Vec<_>>(),
+           "errors": w.errors.len()})
+}
+
+fn walk_layout(font: &FontRef, w: &mut Walk) {
+    if font.table_data(Tag::new(b"GSUB")).is_some() {
+        w.top = "GSUB".into();
+        match font.gsub() {
+            Ok(t) => w.table(&t, "GSUB", 0),
+            Err(e) => w.err("GSUB", &e),
+        }
+    }
+    if font.table_data(Tag::new(b"GPOS")).is_some() {
+        w.top = "GPOS".into();
+        match font.gpos() {
+            Ok(t) => w.table(&t, "GPOS", 0),
+            Err(e) => w.err("GPOS", &e),
+        }
+    }
+}
+
+// ----------------------------------------------------------------------------- the observation
+
+macro_rules! walk_top {
+    ($w:expr, $font:expr, $tag:literal, $getter:ident, $walked:expr) => {
+        if $font.table_data(Tag::new($tag)).is_some() {
+            let name = String::from_utf8_lossy($tag).to_string();
+            $w.top = name.clone();
+            $walked.push(name.clone());
+            match $font.$getter() {
+                Ok(t) => $w.table(&t, &name, 0),
+                Err(e) => $w.err(&name, &e),
+            }
+        }
+    };
+}
+
+pub fn observe(data: &[u8]) -> Result<Map<String, Value>, String> {
+    let mut o = Map::new();
+    o.insert("dir".into(), directory(data));
+    let font = match FontRef::new(data) {
+        Ok(f) => f,
+        Err(e) => {
+            o.insert("readable".into(), json!(false));
+            o.insert("read_error".into(), json!(e.to_string()));
+            return Ok(o);
+        }
+    };
+    o.insert("readable".into(), json!(true));
+    let tags: Vec<String> = font.table_directory.table_records().iter().map(|r| r.tag().to_string()).collect();
+    let has = |t: &str| tags.iter().any(|x| x == t);
+    let len_of = |t: &[u8; 4]| font.table_data(Tag::new(t)).map(|d| d.len() as i64).unwrap_or(-1);
+
+    // ---- walk every table
+    let mut w = Walk::default();
+    let mut walked: Vec<String> = Vec::new();
+    walk_top!(w, font, b"head", head, walked);
+    walk_top!(w, font, b"hhea", hhea, walked);
+    walk_top!(w, font, b"maxp", maxp, walked);
+    walk_top!(w, font, b"OS/2", os2, walked);
+    walk_top!(w, font, b"post", post, walked);
+    walk_top!(w, font, b"name", name, walked);
+    walk_top!(w, font, b"cmap", cmap, walked);
+    walk_top!(w, font, b"hmtx", hmtx, walked);
+    walk_top!(w, font, b"vhea", vhea, walked);
+    walk_top!(w, font, b"vmtx", vmtx, walked);
+    walk_top!(w, font, b"fvar", fvar, walked);
+    walk_top!(w, font, b"avar", avar, walked);
+    walk_top!(w, font, b"gvar", gvar, walked);
+    walk_top!(w, font, b"HVAR", hvar, walked);
+    walk_top!(w, font, b"VVAR", vvar, walked);
+    walk_top!(w, font, b"MVAR", mvar, walked);
+    walk_top!(w, font, b"STAT", stat, walked);
+    walk_top!(w, font, b"GDEF", gdef, walked);
+    walk_top!(w, font, b"GSUB", gsub, walked);
+    walk_top!(w, font, b"GPOS", gpos, walked);
+    walk_top!(w, font, b"BASE", base, walked);
+    walk_top!(w, font, b"COLR", colr, walked);
+    walk_top!(w, font, b"CPAL", cpal, walked);
+    walk_top!(w, font, b"gasp", gasp, walked);
+    walk_top!(w, font, b"meta", meta, walked);
+    pairpos2_devices(&font, &mut w);
+    // loca / glyf / gvar glyph data are reached per glyph
+    let ng = font.maxp().map(|m| m.num_glyphs() as u32).unwrap_or(0);
+    let mut glyphs = Vec::new();
+    if has("glyf") || has("loca") {
+        walked.push("glyf".into());
+        walked.push("loca".into());
+        w.top = "glyf".into();
+        match (font.loca(None), font.glyf()) {
+            (Ok(loca), Ok(glyf)) => {
+                for gid in 0..ng {
+                    match loca.get_glyf(GlyphId::new(gid), &glyf) {
+                        Ok(None) => glyphs.push(json!({"k": "e", "np": 0, "nc": 0, "c": []})),
+                        Ok(Some(g)) => {
+                            w.table(&g, &format!("glyf[{gid}]"), 0);
+                            use skrifa::raw::tables::glyf::Glyph;
+                            match g {
+                                Glyph::Simple(s) => glyphs.push(json!({"k": "s", "np": s.num_points(), "nc": s.number_of_contours(), "c": []})),
+                                Glyph::Composite(c) => {
+                                    let comps: Vec<u32> = c.components().map(|k| k.glyph.to_u32()).collect();
+                                    glyphs.push(json!({"k": "c", "np": 0, "nc": 0, "c": comps}));
+                                }
+                            }
+                        }
+                        Err(e) => {
+                            w.err(&format!("glyf[{gid}]"), &e);
+                            glyphs.push(json!({"k": "x", "np": 0, "nc": 0, "c": []}));
+                        }
+                    }
+                }
+            }
+            (Err(e), _) => w.err("loca", &e),
+            (_, Err(e)) => w.err("glyf", &e),
+        }
+    }
+    let mut gvar_info = json!({"axis_count": -1, "glyph_count": -1, "tuples": 0});
+    if let Ok(gvar) = font.gvar() {
+        w.top = "gvar".into();
+        let mut tuples = 0u64;
+        for gid in 0..(gvar.glyph_count() as u32).min(ng.max(1) + 8) {
+            match gvar.glyph_variation_data(GlyphId::new(gid)) {
+                Ok(Some(d)) => {
+                    for t in d.tuples() {
+                        tuples += 1;
+                        let _ = t.peak();
+                        let n = t.deltas().count();
+                        w.fields += n as u64;
+                    }
+                }
+                Ok(None) => {}
+                Err(e) => w.err(&format!("gvar[{gid}]"), &e),
+            }
+        }
+        gvar_info = json!({"axis_count": gvar.axis_count(), "glyph_count": gvar.glyph_count(), "tuples": tuples});
+    }
+    let known: BTreeSet<&str> = walked.iter().map(|s| s.as_str()).collect();
+    let unwalked: Vec<&String> = tags.iter().filter(|t| !known.contains(t.as_str())).collect();
+    o.insert("tags".into(), json!(tags));
+    o.insert("walked".into(), json!(walked));
+    o.insert("unwalked".into(), json!(unwalked));
+    o.insert("fields".into(), json!(clamp(w.fields)));
+    o.insert("errors".into(), json!(w.errors));
+
+    // ---- counts that must agree
+    let mut c = Map::new();
+    c.insert("num_glyphs".into(), json!(ng));
+    c.insert("loca_len".into(), json!(len_of(b"loca")));
+    c.insert("locfmt".into(), json!(font.head().map(|h| h.index_to_loc_format() as i64).unwrap_or(-1)));
+    c.insert("glyf_len".into(), json!(len_of(b"glyf")));
+    c.insert("hmtx_len".into(), json!(len_of(b"hmtx")));
+    c.insert("nlong_h".into(), json!(font.hhea().map(|h| h.number_of_h_metrics() as i64).unwrap_or(-1)));
+    c.insert("vmtx_len".into(), json!(len_of(b"vmtx")));
+    c.insert("nlong_v".into(), json!(font.vhea().map(|h| h.number_of_long_ver_metrics() as i64).unwrap_or(-1)));
+    c.insert("post_version".into(), json!([0, 0]));
+    c.insert("post_num_glyphs".into(), json!(-1));
+    c.insert("post_max_name_index".into(), json!(-1));
+    c.insert("post_strings".into(), json!(0));
+    if let Ok(post) = font.post() {
+        let (maj, min) = post.version().to_major_minor();
+        c.insert("post_version".into(), json!([maj, min]));
+        c.insert("post_num_glyphs".into(), json!(post.num_glyphs().map(|n| n as i64).unwrap_or(-1)));
+        let idx: Vec<u16> = post.glyph_name_index().map(|a| a.iter().map(|x| x.get()).collect()).unwrap_or_default();
+        let strings = post.string_data().map(|s| s.iter().filter(|x| x.is_ok()).count()).unwrap_or(0);
+        c.insert("post_max_name_index".into(), json!(idx.iter().max().map(|m| *m as i64).unwrap_or(-1)));
+        c.insert("post_strings".into(), json!(strings));
+    }
+    c.insert("fvar_axes".into(), json!(font.fvar().map(|f| f.axis_count() as i64).unwrap_or(-1)));
+    c.insert("avar_axes".into(), json!(font.avar().map(|f| f.axis_count() as i64).unwrap_or(-1)));
+    c.insert("stat_axes".into(), json!(font.stat().map(|f| f.design_axis_count() as i64).unwrap_or(-1)));
+    c.insert("stat_axis_uses".into(), json!(w.stat_axis_uses.iter().collect::<Vec<_>>()));
+    c.insert("gvar".into(), gvar_info);
+    c.insert("maxp".into(), match font.maxp() {
+        Ok(m) => json!({"cpoints": m.max_composite_points().unwrap_or(0), "ccontours": m.max_composite_contours().unwrap_or(0),
+                        "celems": m.max_component_elements().unwrap_or(0), "cdepth": m.max_component_depth().unwrap_or(0),
+                        "points": m.max_points().unwrap_or(0), "contours": m.max_contours().unwrap_or(0)}),
+        Err(_) => json!({"cpoints": 0, "ccontours": 0, "celems": 0, "cdepth": 0, "points": 0, "contours": 0}),
+    });
+    o.insert("counts".into(), Value::Object(c));
+    o.insert("glyphs".into(), json!(glyphs));
+
+    // ---- glyph id uses
+    let mut cm: BTreeSet<u32> = cmap_pairs(&font).into_iter().map(|(_, g)| g).collect();
+    cm.extend(cmap_uvs_gids(&font));
+    w.gid_uses.insert("cmap:mapping".into(), cm);
+    // SingleSubstFormat1 computes its outputs: (covered glyph + delta) mod 65536
+    if let Ok(gsub) = font.gsub()
+        && let Ok(ll) = gsub.lookup_list()
+    {
+        use skrifa::raw::tables::gsub::{SingleSubst, SubstitutionSubtables};
+        let mut outs = BTreeSet::new();
+        for l in ll.lookups().iter().flatten() {
+            if let Ok(SubstitutionSubtables::Single(sts)) = l.subtables() {
+                for st in sts.iter().flatten() {
+                    if let SingleSubst::Format1(f) = st
+                        && let Ok(cov) = f.coverage()
+                    {
+                        for g in cov.iter() {
+                            outs.insert(((g.to_u32() as i64 + f.delta_glyph_id() as i64).rem_euclid(65536)) as u32);
+                        }
+                    }
+                }
+            }
+        }
+        if !outs.is_empty() {
+            w.gid_uses.insert("GSUB:SingleSubstFormat1.output".into(), outs);
+        }
+    }
+    o.insert("gid_uses".into(), sets_to_json(&w.gid_uses));
+    // ---- layout indices
+    let mut lay = Vec::new();
+    for t in ["GSUB", "GPOS"] {
+        if !has(t) {
+            continue;
+        }
+        let pick = |m: &BTreeMap<String, BTreeSet<u32>>| {
+            Value::Array(
+                m.iter()
+                    .filter(|(k, _)| k.starts_with(t))
+                    .map(|(k, s)| json!({"where": k, "ids": s.iter().collect::<Vec<_>>()}))
+                    .collect(),
+            )
+        };
+        lay.push(json!({"table": t,
+            "lookup_count": w.counts.get(&format!("{t}.lookup_count")).copied().unwrap_or(0),
+            "feature_count": w.counts.get(&format!("{t}.feature_count")).copied().unwrap_or(0),
+            "lookup_uses": pick(&w.lookup_uses), "feature_uses": pick(&w.feature_uses)}));
+    }
+    o.insert("layout".into(), json!(lay));
+    // ---- name ids
+    let mut ids = BTreeSet::new();
+    if let Ok(name) = font.name() {
+        for r in name.name_record() {
+            ids.insert(r.name_id().to_u16() as u32);
+        }
+    }
+    o.insert("name_ids".into(), json!(ids.iter().collect::<Vec<_>>()));
+    let uses: BTreeMap<String, BTreeSet<u32>> = w
+        .name_uses
+        .iter()
+        .filter(|(k, _)| !k.starts_with("name:"))
+        .map(|(k, v)| (k.clone(), v.iter().copied().filter(|x| *x != 0xFFFF).collect()))
+        .collect();
+    o.insert("name_uses".into(), sets_to_json(&uses));
+    // ---- variation stores
+    let mut stores = Vec::new();
+    if let Ok(t) = font.hvar() {
+        stores.push(ivs_json("HVAR", t.item_variation_store(), vec![("advance", t.advance_width_mapping()), ("lsb", t.lsb_mapping()), ("rsb", t.rsb_mapping())], ng));
+    }
+    if let Ok(t) = font.vvar() {
+        stores.push(ivs_json("VVAR", t.item_variation_store(), vec![("advance", t.advance_height_mapping()), ("tsb", t.tsb_mapping()), ("bsb", t.bsb_mapping()), ("vorg", t.v_org_mapping())], ng));
+    }
+    if let Ok(t) = font.mvar()
+        && let Some(s) = t.item_variation_store()
+    {
+        stores.push(ivs_json("MVAR", s, vec![], ng));
+    }
+    if let Ok(t) = font.gdef()
+        && let Some(s) = t.item_var_store()
+    {
+        stores.push(ivs_json("GDEF", s, vec![], ng));
+    }
+    if let Ok(t) = font.base()
+        && let Some(s) = t.item_var_store()
+    {
+        stores.push(ivs_json("BASE", s, vec![], ng));
+    }
+    o.insert("stores".into(), json!(stores));
+    o.insert(
+        "varidx".into(),
+        Value::Array(
+            w.varidx
+                .iter()
+                .map(|(k, s)| json!({"table": k, "pairs": s.iter().map(|(a, b)| json!([a, b])).collect::<Vec<_>>()}))
+                .collect(),
+        ),
+    );
+    o.insert("colr".into(), json!(w.colr));
+    Ok(o)
+}
 
 pub fn run(_args: &[String]) -> i32 {
-    eprintln!("vh sfnt: not implemented yet");
-    2
+    std::panic::set_hook(Box::new(|_| {}));
+    let stdin = std::io::stdin();
+    let stdout = std::io::stdout();
+    for line in stdin.lock().lines() {
+        let Ok(line) = line else { break };
+        if line.trim().is_empty() {
+            continue;
+        }
+        let req: Value = match serde_json::from_str(&line) {
+            Ok(r) => r,
+            Err(e) => {
+                eprintln!("bad request: {e}");
+                return 2;
+            }
+        };
+        let id = req.get("id").cloned().unwrap_or(Value::Null);
+        let meta = req.get("meta").cloned().unwrap_or(json!({}));
+        let path = req.get("font").and_then(|v| v.as_str()).unwrap_or("");
+        let res = match std::fs::read(path) {
+            Err(e) => json!({"id": id, "outcome": "error", "message": format!("cannot read {path}: {e}")}),
+            Ok(data) => match std::panic::catch_unwind(std::panic::AssertUnwindSafe(|| observe(&data))) {
+                Ok(Ok(mut o)) => {
+                    o.insert("id".into(), id);
+                    o.insert("meta".into(), meta);
+                    o.insert("outcome".into(), json!("ok"));
+                    Value::Object(o)
+                }
+                Ok(Err(e)) => json!({"id": id, "outcome": "unreadable", "message": e}),
+                Err(p) => json!({"id": id, "outcome": "panic", "message": crate::compile::panic_message(p)}),
+            },
+        };
+        let mut out = stdout.lock();
+        let _ = writeln!(out, "{res}");
+        let _ = out.flush();
+    }
+    0
 }
